@@ -1,6 +1,7 @@
 /-
-Helper lemmas for C18: environments, the nested finite sum `evalSum`, the substitution lemma for
-rational literals, and the coincidence lemma (the value depends on the free symbols only).
+Helper lemmas for C18: environments, the nested finite sum `evalSum`, pool-sum-free terms,
+the coincidence lemma (the value depends on the free symbols only) and the substitution lemma
+(`subs` = update of the environment) for terms whose pool values are terms themselves.
 -/
 import Ampverif.Model.Expr
 import Mathlib.Algebra.Ring.Rat
@@ -28,14 +29,15 @@ theorem upd_upd (ρ : Env) (x : Sym) (a b : Q) : upd (upd ρ x a) x b = upd ρ x
 
 /-! ### `evalSum` -/
 
-theorem evalSum_congr (ixs : List Binder) (ρ : Env) (k k' : Env → Q) (h : ∀ ρ, k ρ = k' ρ) :
+theorem evalSum_congr (ixs : List QBinder) (ρ : Env) (k k' : Env → Q) (h : ∀ ρ, k ρ = k' ρ) :
     evalSum ixs ρ k = evalSum ixs ρ k' := by
   have : k = k' := funext h
   rw [this]
 
-theorem names_cons (p : Binder) (rest : List Binder) : names (p :: rest) = p.1 :: names rest := rfl
+theorem names_cons {α : Type} (p : Sym × α) (rest : List (Sym × α)) :
+    names (p :: rest) = p.1 :: names rest := rfl
 
-theorem evalSum_upd_of_not_mem (ixs : List Binder) :
+theorem evalSum_upd_of_not_mem (ixs : List QBinder) :
     ∀ (ρ : Env) (k : Env → Q) (x : Sym) (q : Q), x ∉ names ixs →
       evalSum ixs (upd ρ x q) k = evalSum ixs ρ (fun ρ' => k (upd ρ' x q)) := by
   induction ixs with
@@ -53,7 +55,7 @@ theorem evalSum_upd_of_not_mem (ixs : List Binder) :
     intro v _
     rw [upd_comm ρ q v hxi, ih _ _ _ _ hxr]
 
-theorem evalSum_upd_of_mem (ixs : List Binder) :
+theorem evalSum_upd_of_mem (ixs : List QBinder) :
     ∀ (ρ : Env) (k : Env → Q) (x : Sym) (q : Q), x ∈ names ixs →
       evalSum ixs (upd ρ x q) k = evalSum ixs ρ k := by
   induction ixs with
@@ -74,8 +76,32 @@ theorem evalSum_upd_of_mem (ixs : List Binder) :
         · exact h
       rw [upd_comm ρ q v hxi, ih _ _ _ _ hxr]
 
+/-- the continuation only matters on environments that differ from `ρ` on the indices. -/
+theorem evalSum_congr_agree (ixs : List QBinder) :
+    ∀ (ρ : Env) (k k' : Env → Q),
+      (∀ ρ' : Env, (∀ s, s ∉ names ixs → ρ' s = ρ s) → k ρ' = k' ρ') →
+      evalSum ixs ρ k = evalSum ixs ρ k' := by
+  induction ixs with
+  | nil => intro ρ k k' h; simp only [evalSum]; exact h ρ (fun _ _ => rfl)
+  | cons p rest ih =>
+    intro ρ k k' h
+    obtain ⟨i, pool⟩ := p
+    simp only [evalSum]
+    congr 1
+    apply List.map_congr_left
+    intro v _
+    apply ih
+    intro ρ' hρ'
+    apply h
+    intro s hs
+    have hsi : s ≠ i := by
+      intro e; apply hs; rw [names_cons]; simp [e]
+    have hsr : s ∉ names rest := by
+      intro e; apply hs; rw [names_cons]; exact List.mem_cons_of_mem _ e
+    rw [hρ' s hsr, upd_other _ _ hsi]
+
 /-- `evalSum` is the flat sum over the cartesian product of the pools (in `itertools.product` order). -/
-theorem evalSum_flat (ixs : List Binder) :
+theorem evalSum_flat (ixs : List QBinder) :
     ∀ (ρ : Env) (k : Env → Q),
       evalSum ixs ρ k = ((assignments ixs).map (fun c => k (updAll ρ c))).sum := by
   induction ixs with
@@ -97,41 +123,277 @@ theorem evalList_eq_map (I : Interp) (es : List Expr) (ρ : Env) :
   | nil => simp [evalList]
   | cons e es ih => simp [evalList, ih]
 
-/-! ### substitution of a rational literal -/
+theorem names_evalBinders (I : Interp) :
+    ∀ (ixs : List Binder) (ρ : Env), names (evalBinders I ixs ρ) = names ixs
+  | [], _ => by simp [evalBinders, names]
+  | (i, pool) :: rest, ρ => by
+      simp only [evalBinders]
+      rw [names_cons, names_cons, names_evalBinders I rest ρ]
+
+/-! ### pool-sum-free terms (pool values) -/
 
 mutual
-theorem eval_subst1_lit (I : Interp) (v : Variant) (hv : v.sound) (x : Sym) (q : Q) :
-    ∀ (e : Expr) (ρ : Env), eval I (subst1 v x (.rat q) e) ρ = eval I e (upd ρ x q)
-  | .sym s, ρ => by
+theorem bound_of_noPsum : ∀ e : Expr, noPsum e = true → bound e = []
+  | .sym _, _ => by simp [bound]
+  | .rat _, _ => by simp [bound]
+  | .add es, h => by simp only [bound]; exact boundList_of_noPsum es (by simpa [noPsum] using h)
+  | .mul es, h => by simp only [bound]; exact boundList_of_noPsum es (by simpa [noPsum] using h)
+  | .pow b _, h => by simp only [bound]; exact bound_of_noPsum b (by simpa [noPsum] using h)
+  | .app _ es, h => by simp only [bound]; exact boundList_of_noPsum es (by simpa [noPsum] using h)
+  | .node _ es _, h => by simp only [bound]; exact boundList_of_noPsum es (by simpa [noPsum] using h)
+  | .psum _ _, h => by simp [noPsum] at h
+  | .idx _ es, h => by simp only [bound]; exact boundList_of_noPsum es (by simpa [noPsum] using h)
+theorem boundList_of_noPsum : ∀ es : List Expr, noPsumList es = true → boundList es = []
+  | [], _ => by simp [boundList]
+  | e :: es, h => by
+      have h' : noPsum e = true ∧ noPsumList es = true := by simpa [noPsumList] using h
+      simp [boundList, bound_of_noPsum e h'.1, boundList_of_noPsum es h'.2]
+end
+
+mutual
+theorem wfSums_of_noPsum : ∀ e : Expr, noPsum e = true → wfSums e = true
+  | .sym _, _ => by simp [wfSums]
+  | .rat _, _ => by simp [wfSums]
+  | .add es, h => by simp only [wfSums]; exact wfSumsList_of_noPsum es (by simpa [noPsum] using h)
+  | .mul es, h => by simp only [wfSums]; exact wfSumsList_of_noPsum es (by simpa [noPsum] using h)
+  | .pow b _, h => by simp only [wfSums]; exact wfSums_of_noPsum b (by simpa [noPsum] using h)
+  | .app _ es, h => by simp only [wfSums]; exact wfSumsList_of_noPsum es (by simpa [noPsum] using h)
+  | .node _ es _, h => by simp only [wfSums]; exact wfSumsList_of_noPsum es (by simpa [noPsum] using h)
+  | .psum _ _, h => by simp [noPsum] at h
+  | .idx _ es, h => by simp only [wfSums]; exact wfSumsList_of_noPsum es (by simpa [noPsum] using h)
+theorem wfSumsList_of_noPsum : ∀ es : List Expr, noPsumList es = true → wfSumsList es = true
+  | [], _ => by simp [wfSumsList]
+  | e :: es, h => by
+      have h' : noPsum e = true ∧ noPsumList es = true := by simpa [noPsumList] using h
+      simp [wfSumsList, wfSums_of_noPsum e h'.1, wfSumsList_of_noPsum es h'.2]
+end
+
+/-- what `wfSums` says about one pool sum. -/
+theorem wfSums_psum {b : Expr} {ixs : List Binder} (h : wfSums (.psum b ixs) = true) :
+    (names ixs).Nodup ∧ (∀ p ∈ ixs, p.2 ≠ []) ∧ noPsumBinders ixs = true ∧
+      (∀ s ∈ symsBinders ixs, s ∉ names ixs ∧ s ∉ bound b) ∧ wfSums b = true := by
+  simp only [wfSums, Bool.and_eq_true, decide_eq_true_eq, List.all_eq_true] at h
+  obtain ⟨⟨⟨⟨h1, h2⟩, h3⟩, h4⟩, h5⟩ := h
+  refine ⟨h1, ?_, h3, ?_, h5⟩
+  · intro p hp he
+    have := h2 p hp
+    simp [he] at this
+  · intro s hs
+    have := h4 s hs
+    simpa using this
+
+/-! ### free symbols are symbols -/
+
+mutual
+theorem mem_syms_of_mem_free : ∀ (e : Expr) (s : Sym), s ∈ free e → s ∈ syms e
+  | .sym _, s, h => by simpa [free, syms] using h
+  | .rat _, s, h => by simp [free] at h
+  | .add es, s, h => by simp only [free, syms] at h ⊢; exact mem_symsList_of_mem_freeList es s h
+  | .mul es, s, h => by simp only [free, syms] at h ⊢; exact mem_symsList_of_mem_freeList es s h
+  | .pow b _, s, h => by simp only [free, syms] at h ⊢; exact mem_syms_of_mem_free b s h
+  | .app _ es, s, h => by simp only [free, syms] at h ⊢; exact mem_symsList_of_mem_freeList es s h
+  | .node _ es _, s, h => by simp only [free, syms] at h ⊢; exact mem_symsList_of_mem_freeList es s h
+  | .psum b ixs, s, h => by
+      simp only [free, List.mem_filter, List.mem_append] at h
+      simp only [syms, List.mem_append]
+      rcases h.1 with h1 | h1
+      · exact Or.inr (mem_syms_of_mem_free b s h1)
+      · exact Or.inl (Or.inr (mem_symsBinders_of_mem_freeBinders ixs s h1))
+  | .idx _ es, s, h => by simp only [free, syms] at h ⊢; exact mem_symsList_of_mem_freeList es s h
+theorem mem_symsList_of_mem_freeList : ∀ (es : List Expr) (s : Sym), s ∈ freeList es → s ∈ symsList es
+  | [], s, h => by simp [freeList] at h
+  | e :: es, s, h => by
+      simp only [freeList, symsList, List.mem_append] at h ⊢
+      rcases h with h | h
+      · exact Or.inl (mem_syms_of_mem_free e s h)
+      · exact Or.inr (mem_symsList_of_mem_freeList es s h)
+theorem mem_symsBinders_of_mem_freeBinders :
+    ∀ (ixs : List (Sym × List Expr)) (s : Sym), s ∈ freeBinders ixs → s ∈ symsBinders ixs
+  | [], s, h => by simp [freeBinders] at h
+  | (_, pool) :: rest, s, h => by
+      simp only [freeBinders, symsBinders, List.mem_append] at h ⊢
+      rcases h with h | h
+      · exact Or.inl (mem_symsList_of_mem_freeList pool s h)
+      · exact Or.inr (mem_symsBinders_of_mem_freeBinders rest s h)
+end
+
+/-! ### coincidence: the value depends on the free symbols only -/
+
+theorem evalSum_agree (F : List Sym) (k : Env → Q)
+    (hk : ∀ ρ1 ρ2 : Env, (∀ s ∈ F, ρ1 s = ρ2 s) → k ρ1 = k ρ2) (ixs : List QBinder) :
+    ∀ ρ ρ' : Env, (∀ s ∈ F, s ∉ names ixs → ρ s = ρ' s) → evalSum ixs ρ k = evalSum ixs ρ' k := by
+  induction ixs with
+  | nil =>
+    intro ρ ρ' h
+    simp only [evalSum]
+    exact hk ρ ρ' (fun s hs => h s hs (by simp [names]))
+  | cons p rest ih =>
+    intro ρ ρ' h
+    obtain ⟨i, pool⟩ := p
+    simp only [evalSum]
+    congr 1
+    apply List.map_congr_left
+    intro q _
+    apply ih
+    intro s hs hsr
+    by_cases hsi : s = i
+    · subst hsi; simp [upd]
+    · rw [upd_other _ _ hsi, upd_other _ _ hsi]
+      apply h s hs
+      rw [names_cons]
+      simp only [List.mem_cons, not_or]
+      exact ⟨hsi, hsr⟩
+
+mutual
+theorem eval_agree (I : Interp) :
+    ∀ (e : Expr) (ρ ρ' : Env), wfSums e = true → (∀ s ∈ free e, ρ s = ρ' s) → eval I e ρ = eval I e ρ'
+  | .sym s, ρ, ρ', _, h => by simpa [eval] using h s (by simp [free])
+  | .rat r, ρ, ρ', _, _ => by simp [eval]
+  | .add es, ρ, ρ', hw, h => by
+      simp only [eval]; rw [evalList_agree I es ρ ρ' (by simpa [wfSums] using hw) (by simpa [free] using h)]
+  | .mul es, ρ, ρ', hw, h => by
+      simp only [eval]; rw [evalList_agree I es ρ ρ' (by simpa [wfSums] using hw) (by simpa [free] using h)]
+  | .pow b n, ρ, ρ', hw, h => by
+      simp only [eval]; rw [eval_agree I b ρ ρ' (by simpa [wfSums] using hw) (by simpa [free] using h)]
+  | .app f es, ρ, ρ', hw, h => by
+      simp only [eval]; rw [evalList_agree I es ρ ρ' (by simpa [wfSums] using hw) (by simpa [free] using h)]
+  | .node c es t, ρ, ρ', hw, h => by
+      simp only [eval]; rw [evalList_agree I es ρ ρ' (by simpa [wfSums] using hw) (by simpa [free] using h)]
+  | .psum b ixs, ρ, ρ', hw, h => by
+      obtain ⟨_, _, hnp, hown, hwb⟩ := wfSums_psum hw
+      simp only [eval]
+      have hpools : evalBinders I ixs ρ = evalBinders I ixs ρ' := by
+        apply evalBinders_agree I ixs ρ ρ' hnp
+        intro s hs
+        apply h s
+        simp only [free, List.mem_filter, List.mem_append]
+        refine ⟨Or.inr hs, ?_⟩
+        have := (hown s (mem_symsBinders_of_mem_freeBinders ixs s hs)).1
+        simpa using this
+      rw [hpools]
+      apply evalSum_agree (free b) _ (fun ρ1 ρ2 h12 => eval_agree I b ρ1 ρ2 hwb h12) _ ρ ρ'
+      intro s hs hsn
+      apply h s
+      simp only [free, List.mem_filter, List.mem_append]
+      refine ⟨Or.inl hs, ?_⟩
+      rw [names_evalBinders] at hsn
+      simpa using hsn
+  | .idx f es, ρ, ρ', hw, h => by
+      simp only [eval]; rw [evalList_agree I es ρ ρ' (by simpa [wfSums] using hw) (by simpa [free] using h)]
+theorem evalList_agree (I : Interp) :
+    ∀ (es : List Expr) (ρ ρ' : Env), wfSumsList es = true → (∀ s ∈ freeList es, ρ s = ρ' s) →
+      evalList I es ρ = evalList I es ρ'
+  | [], _, _, _, _ => by simp [evalList]
+  | e :: es, ρ, ρ', hw, h => by
+      have hw' : wfSums e = true ∧ wfSumsList es = true := by simpa [wfSumsList] using hw
+      simp only [evalList]
+      rw [eval_agree I e ρ ρ' hw'.1 (fun s hs => h s (by simp [freeList, hs])),
+          evalList_agree I es ρ ρ' hw'.2 (fun s hs => h s (by simp [freeList, hs]))]
+theorem evalBinders_agree (I : Interp) :
+    ∀ (ixs : List (Sym × List Expr)) (ρ ρ' : Env), noPsumBinders ixs = true →
+      (∀ s ∈ freeBinders ixs, ρ s = ρ' s) → evalBinders I ixs ρ = evalBinders I ixs ρ'
+  | [], _, _, _, _ => by simp [evalBinders]
+  | (i, pool) :: rest, ρ, ρ', hn, h => by
+      have hn' : noPsumList pool = true ∧ noPsumBinders rest = true := by simpa [noPsumBinders] using hn
+      simp only [evalBinders]
+      rw [evalList_agree I pool ρ ρ' (wfSumsList_of_noPsum pool hn'.1) (fun s hs => h s (by simp [freeBinders, hs])),
+          evalBinders_agree I rest ρ ρ' hn'.2 (fun s hs => h s (by simp [freeBinders, hs]))]
+end
+
+/-! ### the substitution lemma: `subs` is an update of the environment
+
+for every term (nested pool sums, symbolic pools), provided the inserted term mentions no symbol
+that is bound somewhere in the term (no capture). -/
+
+mutual
+theorem eval_subst1 (I : Interp) (v : Variant) (hv : v.sound) (x : Sym) (a : Expr)
+    (ha : wfSums a = true) :
+    ∀ (e : Expr) (ρ : Env), wfSums e = true → (∀ s ∈ syms a, s ∉ bound e) →
+      eval I (subst1 v x a e) ρ = eval I e (upd ρ x (eval I a ρ))
+  | .sym s, ρ, _, _ => by
       by_cases h : s = x
       · subst h; simp [subst1, eval, upd]
       · simp [subst1, eval, upd, h]
-  | .rat r, ρ => by simp [subst1, eval]
-  | .add es, ρ => by simp [subst1, eval, evalList_subst1_lit I v hv x q es ρ]
-  | .mul es, ρ => by simp [subst1, eval, evalList_subst1_lit I v hv x q es ρ]
-  | .pow b n, ρ => by simp [subst1, eval, eval_subst1_lit I v hv x q b ρ]
-  | .app f es, ρ => by simp [subst1, eval, evalList_subst1_lit I v hv x q es ρ]
-  | .node c es t, ρ => by
+  | .rat r, ρ, _, _ => by simp [subst1, eval]
+  | .add es, ρ, hw, hc => by
+      simp only [subst1, eval]
+      rw [evalList_subst1 I v hv x a ha es ρ (by simpa [wfSums] using hw) (by simpa [bound] using hc)]
+  | .mul es, ρ, hw, hc => by
+      simp only [subst1, eval]
+      rw [evalList_subst1 I v hv x a ha es ρ (by simpa [wfSums] using hw) (by simpa [bound] using hc)]
+  | .pow b n, ρ, hw, hc => by
+      simp only [subst1, eval]
+      rw [eval_subst1 I v hv x a ha b ρ (by simpa [wfSums] using hw) (by simpa [bound] using hc)]
+  | .app f es, ρ, hw, hc => by
+      simp only [subst1, eval]
+      rw [evalList_subst1 I v hv x a ha es ρ (by simpa [wfSums] using hw) (by simpa [bound] using hc)]
+  | .node c es t, ρ, hw, hc => by
       have hr : v.getArgsRecursive = false := hv.1
-      simp [subst1, eval, hr, evalList_subst1_lit I v hv x q es ρ]
-  | .psum b ixs, ρ => by
+      simp only [subst1, hr, Bool.false_and, Bool.false_eq_true, if_false, eval]
+      rw [evalList_subst1 I v hv x a ha es ρ (by simpa [wfSums] using hw) (by simpa [bound] using hc)]
+  | .psum b ixs, ρ, hw, hc => by
       have hp : v.poolSumProtectsBound = true := hv.2
+      obtain ⟨_, _, hnp, hown, hwb⟩ := wfSums_psum hw
+      have hc' : ∀ s ∈ syms a, s ∉ names ixs ∧ s ∉ bound b := by
+        intro s hs
+        have := hc s hs
+        simp only [bound, List.mem_append, not_or] at this
+        exact ⟨this.1.1, this.2⟩
       by_cases hx : (names ixs).contains x = true
       · have hx' : x ∈ names ixs := by simpa using hx
         simp only [subst1, hp, hx, if_true, eval]
-        rw [evalSum_upd_of_mem ixs ρ _ x q hx']
+        have hpools : evalBinders I ixs (upd ρ x (eval I a ρ)) = evalBinders I ixs ρ := by
+          apply evalBinders_agree I ixs _ _ hnp
+          intro s hs
+          have hsx : s ≠ x := by
+            intro e
+            exact (hown s (mem_symsBinders_of_mem_freeBinders ixs s hs)).1 (e ▸ hx')
+          exact upd_other _ _ hsx
+        rw [hpools, evalSum_upd_of_mem _ ρ _ x _ (by rw [names_evalBinders]; exact hx')]
       · have hx' : x ∉ names ixs := by simpa using hx
-        simp only [subst1, hp, hx, if_true, eval]
-        rw [evalSum_upd_of_not_mem ixs ρ _ x q hx']
-        apply evalSum_congr
-        intro ρ'
-        exact eval_subst1_lit I v hv x q b ρ'
-  | .idx f es, ρ => by simp [subst1, eval, evalList_subst1_lit I v hv x q es ρ]
-theorem evalList_subst1_lit (I : Interp) (v : Variant) (hv : v.sound) (x : Sym) (q : Q) :
-    ∀ (es : List Expr) (ρ : Env), evalList I (subst1List v x (.rat q) es) ρ = evalList I es (upd ρ x q)
-  | [], ρ => by simp [subst1List, evalList]
-  | e :: es, ρ => by
-      simp [subst1List, evalList, eval_subst1_lit I v hv x q e ρ, evalList_subst1_lit I v hv x q es ρ]
+        simp only [subst1, hp, hx, if_true]
+        simp only [Bool.false_eq_true, if_false, eval]
+        rw [evalBinders_subst1 I v hv x a ha ixs ρ hnp,
+          evalSum_upd_of_not_mem _ ρ _ x _ (by rw [names_evalBinders]; exact hx')]
+        apply evalSum_congr_agree
+        intro ρ' hρ'
+        rw [eval_subst1 I v hv x a ha b ρ' hwb (fun s hs => (hc' s hs).2)]
+        have : eval I a ρ' = eval I a ρ := by
+          apply eval_agree I a ρ' ρ
+          · exact ha
+          · intro s hs
+            apply hρ' s
+            rw [names_evalBinders]
+            exact (hc' s (mem_syms_of_mem_free a s hs)).1
+        rw [this]
+  | .idx f es, ρ, hw, hc => by
+      simp only [subst1, eval]
+      rw [evalList_subst1 I v hv x a ha es ρ (by simpa [wfSums] using hw) (by simpa [bound] using hc)]
+theorem evalList_subst1 (I : Interp) (v : Variant) (hv : v.sound) (x : Sym) (a : Expr)
+    (ha : wfSums a = true) :
+    ∀ (es : List Expr) (ρ : Env), wfSumsList es = true → (∀ s ∈ syms a, s ∉ boundList es) →
+      evalList I (subst1List v x a es) ρ = evalList I es (upd ρ x (eval I a ρ))
+  | [], ρ, _, _ => by simp [subst1List, evalList]
+  | e :: es, ρ, hw, hc => by
+      have hw' : wfSums e = true ∧ wfSumsList es = true := by simpa [wfSumsList] using hw
+      have hc' : ∀ s ∈ syms a, s ∉ bound e ∧ s ∉ boundList es := by
+        intro s hs
+        have := hc s hs
+        simpa [boundList, not_or] using this
+      simp only [subst1List, evalList]
+      rw [eval_subst1 I v hv x a ha e ρ hw'.1 (fun s hs => (hc' s hs).1),
+          evalList_subst1 I v hv x a ha es ρ hw'.2 (fun s hs => (hc' s hs).2)]
+theorem evalBinders_subst1 (I : Interp) (v : Variant) (hv : v.sound) (x : Sym) (a : Expr)
+    (ha : wfSums a = true) :
+    ∀ (ixs : List (Sym × List Expr)) (ρ : Env), noPsumBinders ixs = true →
+      evalBinders I (subst1Binders v x a ixs) ρ = evalBinders I ixs (upd ρ x (eval I a ρ))
+  | [], ρ, _ => by simp [subst1Binders, evalBinders]
+  | (i, pool) :: rest, ρ, hn => by
+      have hn' : noPsumList pool = true ∧ noPsumBinders rest = true := by simpa [noPsumBinders] using hn
+      simp only [subst1Binders, evalBinders]
+      rw [evalList_subst1 I v hv x a ha pool ρ (wfSumsList_of_noPsum pool hn'.1)
+            (by rw [boundList_of_noPsum pool hn'.1]; simp),
+          evalBinders_subst1 I v hv x a ha rest ρ hn'.2]
 end
 
 end Ampverif.Lemmas.C18
